@@ -76,12 +76,19 @@ def compare(case, run):
             ideal.append("squashed unpack regular files %s, expected %s" % (dict(zip(PATHS, run["squashed"])), dict(zip(PATHS, want))))
     if run.get("req_path"):
         rp = run["req_path"]
-        want = []
+        # non-required files must be absent, the required file and the directories leading to it present and unchanged;
+        # a directory that holds no required file may be kept or dropped (the property does not say)
+        full = run["layers"][-1]["walk"]      # the restriction is judged against the unrestricted load of the same image
         for i, p in enumerate(PATHS):
-            k = final[i]
-            want.append(k if (k == "dir" or p == rp) else "-")
-        if run["required"] != want:
-            ideal.append("load restricted to %s gives %s, expected %s" % (rp, run["required"], dict(zip(PATHS, want))))
+            k, got = full[i], run["required"][i] if i < len(run["required"]) else "?"
+            if p == rp or (k == "dir" and rp.startswith(p + "/")):
+                ok = got == k
+            elif k == "dir":
+                ok = got in ("dir", "-")
+            else:
+                ok = got == "-"
+            if not ok:
+                ideal.append("load restricted to %s: %s is %s (full view: %s)" % (rp, p, got, k))
     if not ideal:
         return [], False
     asb = judge_views(case, run, case["asbuilt_lookup"], case["asbuilt_walk"])
@@ -96,7 +103,7 @@ def run_family(ck, cfgs, timeout=1800, allvariants=False):
         cases = r.cases
         if not cases:
             raise vf.NotAVerdict("cfg %s emitted no case" % c)
-        obs = vf.run_harness("vimage", "overlay", cases, args=(["-a", "allvariants=1"] if allvariants else []), timeout=3000)
+        obs = vf.run_harness("vimage", "overlay", cases, args=(["-a", "allvariants=1"] if allvariants else ["-a", "extras_every=2"]), timeout=3000)
         if len(obs) != len(cases):
             raise vf.NotAVerdict("overlay harness returned %d of %d cases" % (len(obs), len(cases)))
         nt = 0
@@ -109,9 +116,20 @@ def run_family(ck, cfgs, timeout=1800, allvariants=False):
                 if not ideal:
                     continue
                 devs = case["devs"]
-                # squashed-unpack / requirer / limit mismatches are never explained by the view finding classes
-                view_only = all(("direct lookup" in m or "walk " in m or "ReadDir(" in m or "walk reaches" in m) for m in ideal)
-                if devs and asbuilt_ok and view_only and all(ck.known_finding(d, ideal[0]) for d in devs):
+                # requirer / limit / clean-up mismatches are never explained by the view finding classes
+                is_view = lambda m: ("direct lookup" in m or "walk " in m or "ReadDir(" in m or "walk reaches" in m)
+                is_sq = lambda m: m.startswith("squashed unpack")
+                view_mm = [m for m in ideal if is_view(m)]
+                sq_mm = [m for m in ideal if is_sq(m)]
+                other = [m for m in ideal if not is_view(m) and not is_sq(m)]
+                ok = not other
+                if view_mm:
+                    ok = ok and bool(devs) and asbuilt_ok and all(ck.known_finding(d, view_mm[0]) for d in devs)
+                if sq_mm:
+                    # the squashed unpacker has its own whiteout handling: attributed by scenario class only
+                    sq_ids = [d.replace("C04-", "C04-unpack-") for d in devs if d in ("C04-same-layer-whiteout-recreate", "C04-opaque-ignored")]
+                    ok = ok and bool(sq_ids) and all(ck.known_finding(d, sq_mm[0]) for d in sq_ids)
+                if ok:
                     continue
                 if len(ck.violations) < 60:
                     ck.violation("%s [%s %s]: %s" % (ck.prop, c, run["variant"], "; ".join(ideal[:3])),
